@@ -9,11 +9,12 @@ PROPERTY = "C06"
 READY = True
 THEOREMS = [
     "C06.order_irrefl", "C06.order_asymm", "C06.order_trans", "C06.order_weak", "C06.order_total",
-    "C06.order_numeric", "C06.order_num_lt_word", "C06.order_prefix", "C06.order_separators",
+    "C06.order_numeric", "C06.order_num_lt_word", "C06.order_prefix",
     "C06.order_split_at_separator", "C06.order_split_skip", "C06.order_split_word", "C06.order_release_lt_master",
     "C06.order_sorted", "C06.tag_release", "C06.tag_saved_version", "C06.tag_ignored", "C06.match_is_substring",
     "C06.report_branches", "C06.no_nonmatching", "C06.only_matching", "C06.under_minimal_build",
-    "C06.exactly_once", "C06.not_merged_exact", "C06.at_most_once", "C06.report_total", "C06.report_total_single",
+    "C06.exactly_once", "C06.not_merged_exact", "C06.at_most_once", "C06.build_title", "C06.pseudo_title",
+    "C06.report_total", "C06.report_total_single",
 ]
 TEXT = "BUG-7"
 OBSOLETE_PERIOD = 30 * G.DAY          # the window of the property statement ("30-day window")
@@ -673,15 +674,17 @@ def tags(case, replies):
             low = min(bt + ([low] if low is not None else []))
 
 
-LEVEL_TEXT = ("All clauses of the property are kernel-checked Lean theorems about the executable model of RGraph that the driver "
+LEVEL_TEXT = ("Every clause of the property has a pinned, kernel-checked Lean theorem (named below) about the executable model of RGraph that the driver "
               "runs (DFS over git parents with the repository caches, _mk_rcommits, _find_new_rcommits_in_build, the 'not merged' "
               "pseudo build, branch ordering), for every topologically numbered history, every placement of tags/matches/heads "
               "and every component plug: commits listed under a build match, are contained in it and the build is a tagged/head "
               "commit new in the branch (only_matching, no_nonmatching), no earlier build of the branch contains the commit "
               "(under_minimal_build), a matching commit contained in some build of the branch is listed (exactly_once) and at most "
               "once anywhere in the branch (at_most_once), 'not merged' lists exactly the matching commits of lower-sorted branches "
-              "not reachable from the head (not_merged_exact), branches are read in a strict weak (total) order, numeric-aware, a "
-              "proper prefix first, names cut at exactly the separators read from the source (order_separators, order_split_*), "
+              "not reachable from the head (not_merged_exact), a build at an untagged commit is the branch head and is titled 'not "
+              "built', a build at a tagged commit is titled with the smallest of its tags' build numbers (build_title), the "
+              "entry titled 'not merged' is exactly the pseudo build without a commit of its own (pseudo_title), branches are read in a strict weak (total) order, numeric-aware, a "
+              "proper prefix first, names cut at exactly the separators read from the source (order_split_*), "
               "release below master (order_*), a commit matches exactly when the search text occurs in its message as it is "
               "(match_is_substring: the model computes the match flags from text and messages), and the report shows them reversed without empty branches "
               "(report_branches). The model has the commit times and the obsolete-branch test of RGraph.__init__; the report "
